@@ -48,7 +48,7 @@ def unparse_by_tlc(patterns, report=None):
     for d in docs:
         if not d["back"]:
             raise MachineryError("JasmSyntax: Parse(Unparse(p)) # p for a universe pattern")
-        res.append({k: doc_native(d[k]) for k in ("body", "sib", "upper")})
+        res.append({k: doc_native(d[k]) for k in ("body", "sib", "upper", "ints")})
     return res
 
 
